@@ -11,6 +11,7 @@ import (
 	"github.com/internetarchive/Zeno/internal/pkg/config"
 	"github.com/internetarchive/Zeno/internal/pkg/log"
 	"github.com/internetarchive/Zeno/internal/pkg/reactor"
+	"github.com/internetarchive/Zeno/internal/pkg/verifhook"
 	"github.com/internetarchive/Zeno/pkg/models"
 	"github.com/internetarchive/gocrawlhq"
 )
@@ -177,6 +178,7 @@ func consumerSender(ctx context.Context, wg *sync.WaitGroup, urlBuffer <-chan *g
 			}
 
 			logger.Debug("sending new item to reactor", "item", newItem.GetShortID())
+			verifhook.AtKV("hq.before_insert", newItem.GetID(), URL.Value, newItem.GetURL().GetHops())
 
 			// Send the new Item to the reactor
 			err = reactor.ReceiveInsert(newItem)
